@@ -713,6 +713,7 @@ class SigmaCorrelationRule(SigmaRuleBase, ProcessingItemTrackingMixin):
             "type": self.type.name.lower(),
             "rules": [rule.reference for rule in self.rules] if self.rules is not None else [],
             "timespan": self.timespan.spec,
+            **({"generate": True} if self.generate else {}),
             "group-by": self.group_by,
             "aliases": self.aliases.to_dict() if self.aliases is not None else None,
         }
